@@ -297,7 +297,8 @@ def make(interp):
     _early_dist = {"POISPMF": POISPMF, "POISCDF": POISCDF, "BINOMPMF": BINOMPMF}
     jscipy = {"stats": {"poisson": {"pmf": B(_pois(POISPMF)), "cdf": B(_pois(POISCDF))}}}
     jax = {"vmap": B(vmap, "vmap"), "pmap": B(pmap, "pmap"), "jit": B(jit, "jit"), "numpy": jnp, "scipy": jscipy,
-           "lax": {"scan": B(scan, "scan"), "dynamic_slice_in_dim": B(dynamic_slice_in_dim), "dynamic_slice": B(dynamic_slice)},
+           "lax": {"scan": B(scan, "scan"), "map": B(lambda f, xs: scan(Builtin(lambda c, x: (c, interp.call(f, [x], {})), "map-body"), None, xs)[1], "lax.map"),    # lax.map(f, xs) is scan with no carry (JAX's own definition)
+                   "dynamic_slice_in_dim": B(dynamic_slice_in_dim), "dynamic_slice": B(dynamic_slice)},
            "devices": B(lambda: SArr((interp.env_device_count,), lambda idx: "device")),
            # placement only: values are unchanged (assumed contract; real device/sharding behaviour is exercised by the multi-device harness)
            "device_get": B(lambda x: x, "device_get"), "device_put": B(lambda x, device=None, **k: x, "device_put"),
